@@ -134,6 +134,16 @@ class Classifier:
                 return None           # bottom: not classified yet in this fixpoint round
             if e.id in self.func.params:
                 return alias({'param:' + e.id})
+            par = self.func.parent
+            while par is not None:
+                if e.id in par.params:
+                    return alias({'outer:' + e.id})
+                par = par.parent
+            r = self.prog.lookup(self.func.mod, e.id)
+            if r is not None and r[0] == 'value':
+                return alias({'global:' + r[1].name + '.' + e.id})
+            if r is not None and r[0] in ('func', 'class', 'mod', 'ext'):
+                return FRESH
             return UNKNOWN
         if isinstance(e, ast.Attribute):
             if isinstance(e.value, ast.Name) and e.value.id == 'self':
@@ -327,8 +337,15 @@ def local_env(prog, f, summaries=None, cls=None):
                 kinds[t.id] = None
     kinds = {k: v for k, v in kinds.items() if v}
     env['$kinds'] = kinds
+    # locals that are always bound to a newly built Python list (container is fresh; its elements may alias)
+    lists = {}
+    for t, v in assigns:
+        if isinstance(t, ast.Name):
+            is_list = isinstance(v, (ast.List, ast.ListComp)) or (isinstance(v, ast.Call) and norm(v.func) in ('list', 'sorted'))
+            lists[t.id] = lists.get(t.id, True) and is_list
+    env['$lists'] = {k for k, v in lists.items() if v}
     for _ in range(4):
-        new = dict((k, v) for k, v in env.items() if v == ('int',) or k == '$kinds')
+        new = dict((k, v) for k, v in env.items() if v == ('int',) or k in ('$kinds', '$lists'))
         c = Classifier(prog, f, dict(env), summaries, cls)
         c.assigned = assigned
         for t, v in assigns:
@@ -384,3 +401,111 @@ def iter_class(c, it):
     if isinstance(it, ast.Call) and norm(it.func) in ('zip', 'enumerate'):
         return UNKNOWN
     return c.classify(it)
+
+
+# ------------------------------------------------------------------------------------------------ in-place effects
+INPLACE_METHODS = {'sort', 'fill', 'resize', 'put', 'itemset', 'setfield', 'partition', 'byteswap', 'append', 'extend',
+                   'insert', 'remove', 'pop', 'clear', 'update', 'reverse', 'setdefault'}
+
+
+class Effects:
+    """in-place effects of repository functions on storage reachable from their parameters / self attributes.
+
+    writes(f) -> [(stmt, description, class)] where class is the alias class of the written storage *in f's frame*
+    (roots 'param:x' / 'self.a'); FRESH effects are included so that a rule can count what it judged."""
+
+    def __init__(self, prog, cls=None):
+        self.prog = prog
+        self.cls = cls
+        self.summ = Summaries(prog, cls)
+        self.cache = {}
+        self.active = set()
+
+    def written_param_roots(self, f):
+        """set of parameter names of f whose storage f (or its callees) may write in place; 'UNKNOWN' flag second"""
+        roots, unk = set(), False
+        for st, desc, cl in self.writes(f):
+            if cl == UNKNOWN or cl is None:
+                unk = True
+            elif cl[0] == 'alias':
+                roots |= {r[6:] for r in cl[1] if r.startswith('param:')}
+        return roots, unk
+
+    def writes(self, f):
+        if f.key in self.cache:
+            return self.cache[f.key]
+        if f.key in self.active:
+            return []
+        self.active.add(f.key)
+        try:
+            if self.prog.numba_kind(f)[0] == 'vectorize':
+                self.cache[f.key] = []      # element-wise scalar function: parameters are scalars
+                return []
+            env = local_env(self.prog, f, self.summ, self.cls)
+            c = Classifier(self.prog, f, env, self.summ, self.cls)
+            out = []
+
+            lists = env.get('$lists', set())
+
+            def target_class(t):
+                if isinstance(t, ast.Name):
+                    return c.classify(t)
+                if isinstance(t, ast.Subscript) and isinstance(t.value, ast.Name) and t.value.id in lists:
+                    return FRESH           # element slot of a list built in this call
+                node = t
+                while isinstance(node, ast.Subscript):
+                    node = node.value
+                return c.classify(node)
+            for n in walk_no_nested(f.node):
+                if isinstance(n, ast.Assign):
+                    for t in n.targets:
+                        for tt in (t.elts if isinstance(t, (ast.Tuple, ast.List)) else [t]):
+                            if isinstance(tt, ast.Subscript):
+                                out.append((n, f'element store `{norm(tt)[:50]}`', target_class(tt)))
+                elif isinstance(n, ast.AugAssign):
+                    t = n.target
+                    if isinstance(t, ast.Subscript):
+                        out.append((n, f'augmented element store `{norm(t)[:50]}`', target_class(t)))
+                    elif isinstance(t, ast.Name):
+                        cl = c.classify(t)
+                        if cl != FRESH and env.get(t.id) != ('int',):
+                            # `x op= v` on an array name mutates the array in place
+                            scalarish = isinstance(n.value, ast.Constant) and t.id not in f.params and cl == UNKNOWN
+                            if not scalarish:
+                                out.append((n, f'augmented assignment to `{t.id}` (in place for arrays)', cl))
+                elif isinstance(n, ast.Call):
+                    fn = n.func
+                    for k in n.keywords:
+                        if k.arg == 'out':
+                            out.append((n, f'out= argument `{norm(k.value)[:40]}`', target_class(k.value)))
+                    if isinstance(fn, ast.Attribute) and fn.attr in INPLACE_METHODS and not isinstance(fn.value, ast.Constant) \
+                            and norm(fn.value) not in ('self', 'cls', 'super()'):
+                        recv = fn.value
+                        cl = target_class(recv) if isinstance(recv, (ast.Name, ast.Subscript, ast.Attribute)) else None
+                        if isinstance(recv, ast.Name) and recv.id in lists:
+                            cl = FRESH
+                        if cl is not None and cl != FRESH and not (isinstance(recv, ast.Name) and env.get(recv.id) in (None,) and recv.id not in f.params):
+                            out.append((n, f'in-place method `{norm(fn)[:40]}()`', cl))
+                    callee = c.resolve(n)
+                    if callee is not None and callee.key != f.key:
+                        nk, _ = self.prog.numba_kind(callee)
+                        roots, unk = self.written_param_roots(callee)
+                        params = list(callee.params)
+                        static = any(norm(d) == 'staticmethod' for d in callee.node.decorator_list)
+                        if params and params[0] in ('self', 'cls') and callee.cls is not None and not static:
+                            params = params[1:]
+                        amap = {}
+                        for i, a in enumerate(n.args):
+                            if i < len(params):
+                                amap[params[i]] = a
+                        for k in n.keywords:
+                            if k.arg:
+                                amap[k.arg] = k.value
+                        for r in roots:
+                            a = amap.get(r)
+                            if a is not None:
+                                out.append((n, f'`{callee.qualname}` writes its parameter `{r}` bound to `{norm(a)[:40]}`', c.classify(a)))
+        finally:
+            self.active.discard(f.key)
+        self.cache[f.key] = out
+        return out
